@@ -42,7 +42,7 @@ DIRS = ["", "private", "private/deep", "app", "app/public", "app/public/sub", "d
 PREFIXES = ["/", "/private/", "/private", "/private/deep/", "/app/", "/app", "/app/public/", "/app/public/sub/",
             "/docs/", "/docs/inner/", "/pub.gmi", "/private/secret.gmi", "/application/"]
 SENT_RE = re.compile(r"RESOURCE<([^>]*)>")
-CERTS = [None, "ec-a", "rsa-a", "ed-a"]
+CERTS = [None, "ec-a", "rsa-a", "ed-a", "twin-a", "twin-b"]
 
 _capsule = None
 
@@ -72,7 +72,7 @@ def rules_st(draw):
     rules = []
     for _ in range(n):
         al = draw(st.sampled_from(["absent", "absent", "empty", "one", "several"]))
-        allowed = {"absent": None, "empty": [], "one": [draw(st.sampled_from(["ec-a", "rsa-a", "ed-a"]))],
+        allowed = {"absent": None, "empty": [], "one": [draw(st.sampled_from(["ec-a", "rsa-a", "ed-a", "twin-a"]))],
                    "several": draw(st.lists(st.sampled_from(["ec-a", "rsa-a", "ed-a", "ec-b"]), min_size=2, max_size=3, unique=True))}[al]
         rules.append({"prefix": draw(st.sampled_from(PREFIXES)), "require_cert": draw(st.booleans()), "allowed": allowed})
     return rules
@@ -104,6 +104,7 @@ def case_st(draw):
                 sp["path"] = sp["path"][: -len(bad)] or "/"
     return {"rules": draw(rules_st()), "via": draw(st.sampled_from(["object", "toml"])), "target": L, "is_dir": is_dir,
             "path": sp["path"], "labels": sp["labels"], "cert": draw(st.sampled_from(CERTS)),
+            "prior": draw(st.sampled_from([None, None, None, "twin-a", "twin-b"])),
             "tls": draw(st.sampled_from(["1.3", "1.2"]))}
 
 
@@ -140,15 +141,18 @@ def _fp(kind):
     return certs.get(kind).fingerprint
 
 
-def run_case(case: dict):
-    setup_logging()
+def _fetch(case, via):
+    """Runs start_server with the rules given via 'object' or 'toml'; returns (handshake ok, bytes, is_stdlib)."""
     from nauyaca.server.config import ServerConfig
     from nauyaca.server.middleware import CertificateAuthConfig, CertificateAuthPathRule
 
     srvcert = certs.get("rsa-a")
     root = capsule()
     rules = case["rules"]
-    if case["via"] == "toml":
+    if via == "toml":
+        import shutil
+        from pathlib import Path
+
         import tomli_w
 
         doc = {"server": {"host": "127.0.0.1", "port": 1965, "document_root": root,
@@ -163,13 +167,11 @@ def run_case(case: dict):
         path = os.path.join(d, "config.toml")
         with open(path, "wb") as f:
             tomli_w.dump(doc, f)
-        from pathlib import Path
-
-        cfg = ServerConfig.from_toml(Path(path))
-        cac = cfg.get_certificate_auth_config()
-        import shutil
-
-        shutil.rmtree(d, ignore_errors=True)
+        try:
+            cfg = ServerConfig.from_toml(Path(path))
+            cac = cfg.get_certificate_auth_config()
+        finally:
+            shutil.rmtree(d, ignore_errors=True)
     else:
         cfg = ServerConfig(host="127.0.0.1", port=1965, document_root=root, certfile=srvcert.cert_path, keyfile=srvcert.key_path)
         cac = CertificateAuthConfig(path_rules=[CertificateAuthPathRule(
@@ -180,6 +182,12 @@ def run_case(case: dict):
         factory, sslctx, task = await stacks.capture_start_server(
             loop, cfg, enable_directory_listing=True, enable_rate_limiting=False, certificate_auth_config=cac)
         v = ssl.TLSVersion.TLSv1_2 if case["tls"] == "1.2" else ssl.TLSVersion.TLSv1_3
+        if case.get("prior"):
+            pc = memnet.ServerConn(loop, factory, sslctx, memnet.permissive_client_ctx(cert=certs.get(case["prior"])))
+            if await pc.handshake():
+                await pc.request(f"gemini://localhost{case['path']}\r\n".encode())
+                await asyncio.sleep(1)
+                await pc.pump()
         cctx = memnet.permissive_client_ctx(minv=v, maxv=v, cert=certs.get(case["cert"]) if case["cert"] else None)
         conn = memnet.ServerConn(loop, factory, sslctx, cctx)
         hs = await conn.handshake()
@@ -189,10 +197,23 @@ def run_case(case: dict):
         task.cancel()
         return conn, hs, sslctx is not None
 
-    conn, hs, is_stdlib = vloop.run(scenario)
+    return vloop.run(scenario)
+
+
+def run_case(case: dict):
+    setup_logging()
+    root = capsule()
+    rules = case["rules"]
+    conn, hs, is_stdlib = _fetch(case, case["via"])
     if not hs:
         return viol("handshake-failed", repr(conn.client.error))
     S = bytes(conn.client.plain)
+    if case["via"] == "toml":
+        # what is written is what is enforced: the same rules given as objects must produce the same answer
+        conn2, hs2, _ = _fetch(case, "object")
+        S2 = bytes(conn2.client.plain)
+        if S2 != S:
+            return viol("toml-rules-enforced-differently", f"{case['path']!r} cert={case['cert']}: from TOML {S[:50]!r}, from objects {S2[:50]!r}; rules={rules}")
     text = S.decode("utf-8", "replace")
     presented = None if is_stdlib else case["cert"]
     status = text[:2]
